@@ -22,7 +22,10 @@ Step(e) ==
     CASE e.ev = "Receive" -> Receive(e.src, e.dst, e.inp, SetOf(e.outs))
       [] e.ev = "SetPort" -> SetPort(e.port, e.en)
       [] OTHER -> FALSE
-TraceInit == tid \in 1..Len(Traces) /\ l = 1 /\ SwitchInit(Cfg.nPorts, Cfg.enabled)
+InitTable == IF "tbl" \in DOMAIN Cfg
+             THEN [m \in {Cfg.tbl[i].mac : i \in 1..Len(Cfg.tbl)} |-> PortOf(Cfg.tbl, m)]
+             ELSE [m \in {} |-> 0]
+TraceInit == tid \in 1..Len(Traces) /\ l = 1 /\ SwitchInitT(Cfg.nPorts, Cfg.enabled, InitTable)
 TraceNext == l <= Len(T) /\ Failing(T[l]) = {} /\ Step(T[l]) /\ l' = l + 1 /\ UNCHANGED tid
 TraceSpec == TraceInit /\ [][TraceNext]_tvars
 Seen == TLCGet(tid)
